@@ -205,6 +205,34 @@ def c03(tr, cx):
         if nrel[cid] != n_service: tr.v('C03', 'service_records_vs_completed_visits', (cid, nrel[cid], n_service))
 
 
+def hook_audit(tr, cx):
+    """Is the attach / detach log complete? After every event the server -> customer relation implied by the hooks must equal
+    the one seen in the snapshot (for servers still present). If a code path attaches or detaches without going through the
+    hooked methods, hook-based clauses cannot be judged: they are skipped and the run is reported as inconclusive for them
+    (never as a violation: the property may well hold on refactored code)."""
+    if 'hook_audit' in cx: return cx['hook_audit']
+    spec = cx['spec']
+    held = {}
+    ok = True
+    groups = groups_of(tr)
+    for k, s in enumerate(tr.snaps):
+        if k >= 1 and k - 1 < len(groups):
+            for e in groups[k - 1][1]:
+                if e[0] == 'attach': held[(e[2], e[4])] = e[3]
+                elif e[0] == 'detach': held[(e[2], e[4])] = None
+        for nid, nd in s['nodes'].items():
+            if not ordinary_finite(spec, nid): continue
+            for sv in nd['servers']:
+                if held.get((nid, sv['id'])) != sv['cust']:
+                    ok = False; cx['hook_audit_witness'] = (k, s['t'], nid, sv['id'], held.get((nid, sv['id'])), sv['cust'])
+                    break
+            if not ok: break
+        if not ok: break
+    cx['hook_audit'] = ok
+    if not ok: tr.count('hook_log_incomplete')
+    return ok
+
+
 # ---------------------------------------------------------------- C04 servers
 def c04(tr, cx):
     spec = cx['spec']
@@ -231,7 +259,7 @@ def c04(tr, cx):
                 if len(ind_srv) > len(servers): tr.v('C04', 'more_in_service_than_servers', (k, nid, len(ind_srv), len(servers)))
     # a server stays with its customer until that customer leaves (or is pre-empted / interrupted)
     held = {}
-    for e in tr.events:
+    for e in (tr.events if hook_audit(tr, cx) else []):
         if e[0] == 'attach':
             key = (e[2], e[4])
             tr.count('C04.attaches')
@@ -449,6 +477,7 @@ def c07(tr, cx):
 # ---------------------------------------------------------------- C08 service order
 def c08(tr, cx):
     spec = cx['spec']
+    hooks_ok = hook_audit(tr, cx)
     joined = {}   # (nid, cid) -> sequence number of joining its current priority queue
     seq = 0
     for e in tr.events:
@@ -458,7 +487,7 @@ def c08(tr, cx):
             pm = spec['priorities']
             if pm and pm[e[4]] != pm[e[5]]:   # re-queued at the tail of the new priority class
                 seq += 1; joined[(e[2], e[3])] = seq
-        if e[0] != 'attach': continue
+        if e[0] != 'attach' or not hooks_ok: continue
         _, t, nid, cid, sid, prio, arr, intr, waiting, inserv, off, insrv, nintr, order, hadserver, ctx = e[:16]
         if intr: continue
         disc = spec['nodes'][nid - 1]['discipline']
